@@ -379,6 +379,40 @@ def move_back(tree: ast.Module, ref: dict, notes: list) -> ast.Module:
     back where the reference has it; calls are re-spelled (`f(x)` <-> `self.f(x)`). Only when the moved body does not use `self`."""
     mod_funcs = {st.name: st for st in tree.body if isinstance(st, (ast.FunctionDef, ast.AsyncFunctionDef))}
     classes = {st.name: st for st in tree.body if isinstance(st, ast.ClassDef)}
+    # (0) moved *and* renamed: the class lacks exactly one private method of the reference, and exactly one private module-level
+    # function the reference does not know is used by that class only and has the missing method's parameter count: it is that method
+    for cname, rc in ref.get("classes", {}).items():
+        cls = classes.get(cname)
+        if cls is None:
+            continue
+        have = {m.name for m in cls.body if isinstance(m, (ast.FunctionDef, ast.AsyncFunctionDef))}
+        missing = [mn for mn in rc["methods"] if _is_private(mn) and not mn.startswith("__") and mn not in have and mn not in mod_funcs and mn not in ref.get("names", {})]
+        fresh = [f for n_, f in mod_funcs.items() if _is_private(n_) and n_ not in ref.get("names", {}) and not (f.args.args and f.args.args[0].arg in ("self", "cls"))]
+        if len(missing) != 1 or not fresh:
+            continue
+        mname = missing[0]
+        cands = []
+        for f in fresh:
+            users = [c for c in classes.values() if any(isinstance(x, ast.Name) and x.id == f.name for x in ast.walk(c))]
+            outside = any(isinstance(x, ast.Name) and x.id == f.name for st in tree.body if not isinstance(st, ast.ClassDef) and st is not f for x in ast.walk(st))
+            same_kind = ("async" in rc["methods"][mname]) == isinstance(f, ast.AsyncFunctionDef) if any(t in ("async", "sync") for t in rc["methods"][mname]) else True
+            if users == [cls] and not outside and "params:%d" % (len(f.args.args) + len(f.args.kwonlyargs) + 1) in rc["methods"][mname] and same_kind:
+                cands.append(f)
+        if len(cands) != 1:
+            continue
+        f = cands[0]
+        old_name = f.name
+
+        class R0(ast.NodeTransformer):
+            def visit_Name(s2, node):
+                if node.id == old_name:
+                    node.id = mname
+                return node
+
+        R0().visit(tree)
+        f.name = mname
+        mod_funcs[mname] = mod_funcs.pop(old_name)
+        notes.append(f"{old_name} is {cname}.{mname} moved to module level under a new name")
     # (1) method in the reference, module-level function now
     for cname, rc in ref.get("classes", {}).items():
         cls = classes.get(cname)
@@ -597,6 +631,22 @@ class _Inliner(ast.NodeTransformer):
         body = _strip_doc(fn.body)
         if len(body) == 1 and isinstance(body[0], ast.Return) and body[0].value is not None:
             return body[0].value
+        # guard-clause helper: `if C: return X` ... `return Y` is the conditional expression `X if C else Y` (same evaluation order)
+        def as_expr(stmts):
+            stmts = _strip_doc(stmts)
+            if len(stmts) == 1 and isinstance(stmts[0], ast.Return) and stmts[0].value is not None:
+                return stmts[0].value
+            if len(stmts) >= 1 and isinstance(stmts[0], ast.If):
+                a = as_expr(stmts[0].body)
+                b = as_expr(stmts[0].orelse) if stmts[0].orelse and len(stmts) == 1 else (as_expr(stmts[1:]) if not stmts[0].orelse and len(stmts) > 1 else None)
+                if a is not None and b is not None:
+                    return ast.copy_location(ast.IfExp(test=stmts[0].test, body=a, orelse=b), stmts[0])
+            return None
+
+        if not isinstance(fn, ast.AsyncFunctionDef) and body and isinstance(body[0], ast.If):
+            e = as_expr(body)
+            if e is not None and not any(isinstance(x, (ast.Await, ast.NamedExpr, ast.Yield, ast.YieldFrom)) for x in ast.walk(e)):
+                return ast.fix_missing_locations(e)
         # straight-line helper: `t1 = <pure arithmetic>; t2 = <pure arithmetic over t1>; return E` is the expression E with the
         # temporaries substituted (each bound once; pure operands, so neither duplication nor order of evaluation matters)
         if len(body) >= 2 and isinstance(body[-1], ast.Return) and body[-1].value is not None and all(
@@ -1685,6 +1735,17 @@ class _Normalise(ast.NodeTransformer):
             if neg:
                 op = ast.Or() if isinstance(t.op, ast.And) else ast.And()
             return ast.copy_location(ast.BoolOp(op=op, values=[_Normalise._nnf(v, neg) for v in t.values]), t)
+        if isinstance(t, ast.IfExp) and (isinstance(t.body, ast.Constant) and isinstance(t.body.value, bool) or isinstance(t.orelse, ast.Constant) and isinstance(t.orelse.value, bool)):
+            # in a condition only truthiness counts: `K if C else B` with a constant arm is a conjunction / disjunction
+            c, a, b = t.test, t.body, t.orelse
+            notc = ast.UnaryOp(op=ast.Not(), operand=copy.deepcopy(c))
+            if isinstance(a, ast.Constant) and isinstance(a.value, bool):
+                e = ast.BoolOp(op=ast.Or(), values=[c, b]) if a.value else ast.BoolOp(op=ast.And(), values=[notc, b])
+            else:
+                e = ast.BoolOp(op=ast.Or(), values=[notc, a]) if b.value else ast.BoolOp(op=ast.And(), values=[c, a])
+            ast.copy_location(e, t)
+            ast.fix_missing_locations(e)
+            return _Normalise._nnf(e, neg)
         if neg and isinstance(t, ast.Compare) and len(t.ops) == 1 and type(t.ops[0]) in _NEG:
             return ast.copy_location(ast.Compare(left=t.left, ops=[_NEG[type(t.ops[0])]()], comparators=t.comparators), t)
         return ast.copy_location(ast.UnaryOp(op=ast.Not(), operand=t), t) if neg else t
